@@ -74,6 +74,10 @@ func c05codec(c *Ctx, p *load.Program, pkgPath, prefix string) {
 			return "len(Signatures)"
 		case "sig.Index", "sig.Signature":
 			return f
+		case "Signatures[i].Index":
+			return "sig.Index"
+		case "Signatures[i].Signature":
+			return "sig.Signature"
 		}
 		return f
 	}
@@ -93,7 +97,7 @@ func c05codec(c *Ctx, p *load.Program, pkgPath, prefix string) {
 			}
 			continue
 		}
-		if e.Loop > 0 && e.LoopX != "range "+recvOf(mfd)+".Signatures" {
+		if e.Loop > 0 && e.LoopX != "range "+recvOf(mfd)+".Signatures" && e.LoopX != "i < len("+recvOf(mfd)+".Signatures)" {
 			undec = "Marshal loop does not range over the VAA's Signatures: " + e.LoopX
 		}
 		wseq = append(wseq, codecItem{norm(recvOf(mfd), e.Field), e.Width, e.Loop > 0, e.Order, e.Pos, e})
